@@ -252,16 +252,18 @@ func propC17(c c17Case, o *Obs) error {
 				}
 			}
 		} else {
-			// a compaction ran: before+[new] -> after
+			// a compaction ran.  Either the new table was part of the merged run
+			// (before+[new] -> after), or it survives as the last table and a run
+			// among the older ones was merged.
 			withNew := append(append([]string{}, before...), "<new>")
-			// the new table may have survived under its real name: align by suffix
-			if len(after) > 0 && !contains(before, after[len(after)-1]) && len(after) >= 1 {
-				// either the compaction output or the new table is last
+			_, e1 := compactionShape(withNew, after)
+			e2 := fmt.Errorf("new table not last")
+			if len(after) > 0 && !contains(before, after[len(after)-1]) {
+				_, e2 = compactionShape(before, after[:len(after)-1])
 			}
-			if len(after) > len(before) {
-				return Failf("C17/no-progress", "Add #%d: auto-compaction ran but tables went %d -> %d (%v -> %v)", n, len(before)+1, len(after), before, after)
+			if e1 != nil && e2 != nil {
+				return Failf("C17/shape", "Add #%d changed the tables from %v (+ new table) to %v: not one contiguous run of >=2 tables replaced by <=1 (%v / %v)", n, before, after, e1, e2)
 			}
-			_ = withNew
 		}
 		if d := len(after); d > maxDepth {
 			maxDepth = d
